@@ -100,10 +100,25 @@ def seqStep (model : Bool) (x : SeqCtx) (op obs : String) : SeqCtx × Option Str
     let (mon1, e1) := x.mon.call ws res
     let mon1 := if ws == ["shutdownnow"] && res.startsWith "ok:" then
         { mon1 with returned := ((parseInts (res.drop 3).toString).getD []).map Int.toNat } else mon1
+    -- an accepted blocking task that the scenario never released keeps Shutdown from completing by the
+    -- scenario's own doing (only shrunk replays contain such cases): that hang is not the pool's
+    let unreleased := mon1.tasks.any fun t => t.accepted && t.beh == "block" && !t.released
+    let rad := (fieldNat obs "runatdone").getD 0
+    let rs := sn.runs.toArray
     let e2 : Option String :=
-      if ws == ["waitdone"] && res == "hang" && x.prop == "C12" &&
+      if ws == ["waitdone"] && res == "hang" && x.prop == "C12" && !unreleased &&
          classify x.cfg x.fire sn.st sn.go sn.q = .other then
         some s!"C12 Shutdown never completed: unexplained hang st={sn.st} totalGo={sn.go} queue={sn.q}"
+      else if ws == ["waitdone"] && res == "closed" && x.prop == "C12" then
+        -- the channel *returned by Shutdown* was observed closed (the snapshot law below looks at the pool's
+        -- context through the hook): no task inside Run at that instant, every accepted task finished,
+        -- nothing queued
+        if rad > 0 then some s!"C12 done channel closed while {rad} task(s) were still running"
+        else if !sn.unstable && !sn.bb && sn.q != 0 then some s!"C12 done channel closed with {sn.q} tasks queued"
+        else match (List.range mon1.tasks.size).find? (fun i =>
+            (mon1.tasks.getD i default).accepted && !finished (mon1.tasks.getD i default) (rs.getD i 0)) with
+          | some i => some s!"C12 done channel closed while accepted task {i} was not finished"
+          | none => none
       else if ws == ["states"] && res.startsWith "gocnt:" && x.prop == "C11" &&
          ((res.drop 6).toString.toNat?).any (· > x.cfg.maxGo) then some s!"C11 States reported {res}, maxGo={x.cfg.maxGo}"
       else none
@@ -207,6 +222,10 @@ def concStep (model : Bool) (prop : String) (cfg : Cfg) (fire : Bool) (obs : Str
   | some o =>
     let cls := classify cfg fire o.st o.go o.q
     let law := if prop == "C10" then c10Conc o else if prop == "C11" then c11Conc o else c12Conc o cls
+    -- tasks inside Run at the instant the channel returned by Shutdown was observed closed
+    let rad := (fieldNat obs "runatdone").getD 0
+    let law := if prop == "C12" && o.done == "closed" && rad > 0 then
+        some s!"C12 done channel closed while {rad} task(s) were still running" else law
     let wb : Option String :=
       if model && !o.unstable && !o.bb then
         -- white-box facts proved for the model: totalGo ≤ maxGo; done closed gracefully ⇒ stopped, no worker, empty queue
